@@ -238,6 +238,22 @@ func VH_C19_transport_server_is_hidden_iff_hidden_vhosts_are_configured() {
 	verifAssert(err == nil, "C19: NewHopServer succeeds")
 	verifAssert(c10Captured.IsHidden == (k > 0), "C19: the transport server runs hidden (silent to everything but hidden requests) exactly when hidden virtual hosts are configured - a hidden host must never be served by a discoverable server that answers ClientHellos")
 	verifAssert(len(c10Captured.HiddenModeVHostNames) == k, "C19: the hidden virtual-host names reach the transport server")
+	// the transport calls GetCertList for EVERY hidden-request datagram, hidden
+	// server or not: it must exist, and for a hidden server it yields exactly
+	// the FIRST virtual host matching each hidden name (never the "*" fallback
+	// behind it, whose KEM key must not open hidden requests)
+	verifAssert(c10Captured.GetCertList != nil, "C10: the certificate-list callback is installed in every configuration (the transport calls it for any datagram typed as a hidden request)")
+	if c10Captured.GetCertList != nil {
+		list, lerr := c10Captured.GetCertList()
+		if k == 0 {
+			verifAssert(lerr != nil || len(list) == 0, "C19: a server without hidden virtual hosts offers no certificate to hidden requests")
+		} else {
+			verifAssert(lerr == nil && len(list) == k, "C19: one certificate per hidden virtual-host name")
+			for _, c := range list {
+				verifAssert(c == &c10Hosts[0].Certificate, "C19: hidden requests are tried only against the virtual host the hidden name designates (first match), never against the fallback host behind it")
+			}
+		}
+	}
 	if k > 0 {
 		verifCover("hidden")
 	} else {
@@ -285,6 +301,7 @@ func c01Policy(prop string) {
 		return
 	}
 	verifAssert(v.InsecureSkipVerify == sc.InsecureSkipVerify, prop+": client certificates are left unverified iff the configuration says InsecureSkipVerify")
+	verifAssert(v.CurrentTime.IsZero(), prop+": the policy of a long-lived server carries no fixed clock reading (each certificate is judged at the time of its handshake, not at server start)")
 	keysOn := !sc.InsecureSkipVerify && (sc.EnableAuthgrants || sc.EnableAuthorizedKeys)
 	verifAssert(v.AuthKeysAllowed == keysOn, prop+": bare keys (authorized_keys entries, grant keys) are admitted at the transport layer iff authorized keys or grants are enabled")
 	verifAssert((v.AuthKeys != nil) == keysOn, prop+": a key set exists iff bare keys are admitted")
@@ -293,4 +310,16 @@ func c01Policy(prop string) {
 		// hop server's key store IS the transport's key set
 		verifAssert(s.keyStore == v.AuthKeys, prop+": the key set the hop server adds grant keys to is the one the transport consults")
 	}
+}
+
+//verif:prop C10
+//verif:replay none
+//verif:stub hop.computer/hop/hopserver.NewVirtualHosts = c10NewVirtualHosts
+//verif:stub net.ListenPacket = c10ListenPacket
+//verif:stub hop.computer/hop/transport.NewServer = c10NewServer
+//verif:stub hop.computer/hop/hopserver.NewHopServerExt = c10NewHopServerExt
+//verif:bounds as VH_C19_transport_server_is_hidden_iff_hidden_vhosts_are_configured
+//verif:cover hidden;discoverable
+func VH_C10_every_callback_the_transport_calls_is_installed_in_every_configuration() {
+	VH_C19_transport_server_is_hidden_iff_hidden_vhosts_are_configured()
 }
